@@ -2,7 +2,9 @@ package c19
 
 import (
 	"fmt"
+	"regexp"
 	"sort"
+	"strconv"
 	"strings"
 
 	"github.com/ohler55/slip"
@@ -89,8 +91,57 @@ func deepTo(b *strings.Builder, obj slip.Object, depth int) {
 		b.WriteByte('>')
 	case *slip.Lambda:
 		b.WriteString("#<lambda>")
+	case slip.Funky:
+		// a function object held as data, such as the reader's 'x
+		b.WriteString("#<call ")
+		b.WriteString(strings.ToLower(to.GetName()))
+		for _, a := range to.GetArgs() {
+			b.WriteByte(' ')
+			deepTo(b, a, depth+1)
+		}
+		b.WriteByte('>')
 	default:
 		b.WriteString(sl.Show(obj))
+	}
+}
+
+// arrayProbe is evaluated with c19-v bound to an array: what slip's own
+// accessors say about it.
+const arrayProbe = `(list (array-has-fill-pointer-p c19-v) (if (array-has-fill-pointer-p c19-v) (fill-pointer c19-v) 'none)
+ (array-dimensions c19-v) (adjustable-array-p c19-v) (array-element-type c19-v) (array-rank c19-v)
+ (if (vectorp c19-v) (list (length c19-v) (coerce c19-v 'list)) 'array))`
+
+var vecShape = regexp.MustCompile(`#<vector et=(\S+) adj=(\S+) fill=(-?\d+) dims=\[(\d+)\]`)
+
+// vectorShapes counts what kinds of vectors a rendering holds: position of
+// the fill pointer, size, element type, adjustability.
+func vectorShapes(rendered string, cover func(string)) {
+	for _, m := range vecShape.FindAllStringSubmatch(rendered, -1) {
+		fill, _ := strconv.Atoi(m[3])
+		n, _ := strconv.Atoi(m[4])
+		switch {
+		case fill < 0:
+			cover("vector-fill:none")
+		case fill == n:
+			cover("vector-fill:at-size")
+			if n == 0 {
+				cover("vector-fill:at-size-0")
+			}
+		case fill == 0:
+			cover("vector-fill:zero")
+		case n < fill:
+			cover("vector-fill:past-dims")
+		default:
+			cover("vector-fill:inside")
+		}
+		switch {
+		case n <= 1:
+			cover(fmt.Sprintf("vector-size:%d", n))
+		default:
+			cover("vector-size:2+")
+		}
+		cover("vector-et:" + m[1])
+		cover("vector-adjustable:" + m[2])
 	}
 }
 
